@@ -40,6 +40,8 @@ for d in sorted(x for x in os.listdir(out) if re.fullmatch(re.escape(pid) + r'-\
         print(d, 'incomplete'); continue
     ran = []
     sh(f'git -C {wt} checkout -- . ')
+    if use_wt:
+        sh(f'git -C {wt} merge -q --ff-only main')    # scratch worktree must be at /repo main, which the checks mirror
     rc0, _ = sh(f'/venv/bin/python {demo}', cwd=wt, env=env)
     rc, o = sh(f'git -C {wt} apply {patch}')
     if rc != 0:
